@@ -240,6 +240,9 @@ class _Tree:
             for fld, atom in (("previous_token_hash", "prevLenNe"), ("content_hash", "chashLenNe")):
                 if pair == {f"len({tok}.{fld})", glen} and isinstance(op, (ast.NotEq, ast.Eq)):
                     return signed(atom, isinstance(op, ast.NotEq))
+            if pair == {f"len({tok}.signature)", "self.public_key.get_signature_length()"} and \
+                    isinstance(op, (ast.NotEq, ast.Eq)):
+                return signed("sigLenNe", isinstance(op, ast.NotEq))
             if pair == {f"{tok}.previous_token_hash", "self.genesis_hash"} and isinstance(op, (ast.NotEq, ast.Eq)):
                 return signed("prevIsGenesis", isinstance(op, ast.Eq))
             if r == "self.elements" and isinstance(op, (ast.In, ast.NotIn)):
